@@ -28,6 +28,9 @@ FLOORS = {'quick': {'conclusive': 70, 'distinct_nontrivial': 60,
 CASE_TIMEOUT = {'quick': 180, 'thorough': 400}
 
 
+# appended to RULE in the evidence (vlib/runner.py)
+RULE_ADDENDUM = 'Added in round 4: a whole zone (with a booster pump, made if need be) cut off from every source and re-connected in the first hydraulic step after a pause.'
+
 def n_cases(tier):
     return 240 if tier == 'quick' else 3000
 
